@@ -494,14 +494,19 @@ func main() {
 		},
 		Floors: func(tier string) map[string]int64 {
 			f := map[string]int64{
-				"values.indirection_ge2": 5000, "values.aliased": 1000, "values.with_nil_ptr": 300, "values.with_nil_slice": 300,
-				"values.with_empty_slice": 300, "values.with_nil_map": 300, "values.with_empty_map": 300, "values.with_zero_sized_target": 10,
-				"values.built.alias_ptr": 100, "values.built.alias_slice": 100, "values.built.alias_map": 100, "values.built.sub_slice": 100,
-				"values.built.ptr_into_slice": 50, "addresses_compared": 50000, "scramble.rounds": 10000, "distinct": 5000,
-				"expr_depth.5": 500, "expr_depth.4": 500,
+				"values.indirection_ge2": 50000, "values.aliased": 10000, "values.with_nil_ptr": 5000, "values.with_nil_slice": 5000,
+				"values.with_empty_slice": 5000, "values.with_nil_map": 5000, "values.with_empty_map": 5000, "values.with_zero_sized_target": 1000,
+				"values.built.alias_ptr": 2000, "values.built.alias_slice": 2000, "values.built.alias_map": 2000, "values.built.sub_slice": 2000,
+				"values.built.ptr_into_slice": 1000, "addresses_compared": 500000, "scramble.rounds": 250000, "distinct": 50000,
+				"expr_depth.5": 5000, "expr_depth.4": 5000, "value_indirection.4": 1000, "value_indirection.5": 500,
 			}
 			for _, c := range combinators {
-				f["hit."+c] = 40
+				f["hit."+c] = 400
+			}
+			if tier == "thorough" {
+				for k := range f {
+					f[k] *= 10
+				}
 			}
 			return f
 		},
